@@ -8,6 +8,18 @@ PY = "PYTHONHASHSEED=0 /venv/bin/python"
 
 # pid -> (technique, level text, level note, design ref)
 CHECKS = {
+    "C01": (
+        "Hypothesis @given problems; differential against an exact rational-arithmetic heat cascade per zone",
+        "Generated-input search (2k quick / 60k thorough problems) comparing Qh, Qc, Qr of every zone of the returned tree, every uniquely named record and the table ends with an independent Fraction cascade over the streams labelled into that zone; classes (pinched, thresholds, only-hot/cold, isothermal, coincident breakpoints, multi-zone) each hold a measured minimum share.",
+        "Reference cascade is exact; temperatures on a 1e-3 K grid (>=3.3e-4 K apart) so exact and tolerance-based notions of a breakpoint coincide; label-safe zone sets.",
+        "DESIGN.md section 5 C01",
+    ),
+    "C02": (
+        "Hypothesis @given problems x utility sets; first-law invariants recomputed from the input streams",
+        "Generated-input search (1.5k quick / 40k thorough) checking Qh-Qc, Qr, non-negativity and the utility-list net duty of every DI, Total-Process and Total-Site target and record against sums recomputed from the input streams.",
+        "Sums are exact fractions of the inputs; one known finding (default CU suppressed by the real-scale coverage test) is excluded by an input-only predicate.",
+        "DESIGN.md section 5 C02",
+    ),
     "C20": (
         "Hypothesis @given over arrangement x label form x (NTU, c, passes): round-trip, bound, limit and symmetry oracles",
         "Generated-input search (12k quick / 600k thorough cases, 16 shards) against round-trip, counter-flow bound (independent formula), c=0 limit, monotonicity and LMTD bound/symmetry/refusal oracles; scalar float domain is sampled densely with 0/1 boosted, so a wrong formula or dispatch shows within seconds; absence is not proven.",
